@@ -38,6 +38,24 @@ def gen_div_req(rnd, tier):
             "seed": rnd.randrange(1 << 30), "gomaxprocs": [1, 2, 4, 16], "nomodel": True}
 
 
+def cold_start_race(rb, dl_reqs):
+    """fresh processes whose very first calls are concurrent single-shot simulations with literal stimuli (nothing the library initialises
+    lazily has been touched yet), under the race detector"""
+    viol = []
+    for k in range(3):
+        prog = ["i2rw r0 i0", "i2rw r1 i1", "add r0 r1", "r2owa r0 o0", "nop", "nop", "j 0"]    # no literal in the program
+        spec = {"rsize": 8, "procs": [{"arch": {"R": 1, "N": 2, "M": 1, "L": 0, "O": 4, "ops": ["add", "i2rw", "j", "nop", "r2owa"], "mode": "ha", "rsize": 8},
+                                        "prog": prog}], "inputs": 2, "outputs": 1, "bonds": [["p0i0", "i0"], ["p0i1", "i1"], ["o0", "p0o0"]]}
+        q = {"bm": spec, "call": "single", "n": 32, "conc": 8, "cold": True, "input": ["0x%x" % (k + 3), "0b1%d1" % (k % 2)]}
+        p = C.sh([rb, "c17"], input=json.dumps(q) + "\n", timeout=1200, check=False)
+        if "DATA RACE" in p.stderr or "concurrent map" in p.stderr:
+            at = p.stderr.find("DATA RACE") if "DATA RACE" in p.stderr else p.stderr.find("concurrent map")
+            viol.append(("the race detector reports a data race between the first concurrent single-shot simulations of a fresh process: %s"
+                         % p.stderr[at:][:600], {"sim": q}))
+            return True, viol
+    return False, viol
+
+
 def run(res, a):
     failed = C.proof_part(res, "C09", trusted=[
         "Isa/Sim.v + Net/Tick.v: hand-written model of procbuilder.VM.Step / bondmachine.VM.Step, tied by per-tick full-state comparison",
@@ -160,6 +178,9 @@ def run(res, a):
         if race:
             viol.append(("the race detector reports a data race between concurrent single-shot simulations (shared opcode delays / dynamic number type): %s"
                          % p.stderr[p.stderr.find("DATA RACE"):][:600], {"sim": small[-1]}))
+        else:
+            race, cold_viol = cold_start_race(rb, dl_reqs)
+            viol += cold_viol
     if a.tier == "thorough":
         rb = C.build_harness(race=True)
         p = C.sh([rb, "c09"], input="".join(json.dumps(r) + "\n" for r in reqs[:20]), timeout=3000, check=False)
@@ -167,6 +188,9 @@ def run(res, a):
         if not race:
             p = C.sh([rb, "c17"], input="".join(json.dumps(r) + "\n" for r in dl_reqs), timeout=3000, check=False)
             race = "DATA RACE" in p.stderr
+        if not race:
+            race, cold_viol = cold_start_race(rb, dl_reqs)
+            viol += cold_viol
         if race:
             viol.append(("the race detector reports a data race: %s" % p.stderr[p.stderr.find("DATA RACE"):][:600], reqs[0]))
     cov = res.coverage
